@@ -172,11 +172,16 @@ func (e *Engine) RandomHistory(steps, maxHeight int) {
 		if h > 0 && r.Chance(1, 6) {
 			// an operation juno must discard, between the accepted ones
 			op := discardedOps[r.Intn(len(discardedOps))]
+			if r.Chance(1, 3) {
+				op = "store-invalid"
+			}
 			var d *Desc
 			switch op {
 			case "revert-dropped":
 			case "store-late-fail":
 				d = e.lateFailDesc()
+			case "store-invalid":
+				d = e.invalidDesc()
 			default:
 				d = e.genDesc()
 			}
